@@ -269,6 +269,8 @@ def gen_identity(rng, which, big=False):
         while True:
             (H, kh, sh_, ph, dh), (W, kw, sw, pw, dw) = gen_ops.geom2(rng)
             if ph <= kh // 2 and pw <= kw // 2: break
+        if rng.chance(.4): kw, sw, pw, dw = kh, sh_, min(ph, pw), dh if W + 2 * min(ph, pw) >= dh * (kh - 1) + 1 else dw      # square arguments: the documented bare-int spelling becomes possible
+        if pw > kw // 2 or W + 2 * pw < dw * (kw - 1) + 1: kw, sw, pw, dw = 1, 1, 0, 1
         if big or rng.chance(.1):        # a window of more than 256 elements
             n, c = 1, 1
             H, W = rng.randint(17, 20), rng.randint(17, 20); kh, kw = rng.pick([(17, 17), (16, 17), (H, W)])
